@@ -218,7 +218,7 @@ fn short(s: &str) -> String {
 fn systematic() -> Vec<Case> {
     let fill = ["probe", "5", "k", "7", "v"];
     let mut out = vec![];
-    for auth in [Auth::None, Auth::AdminDb, Auth::DbToken] {
+    for auth in [Auth::None, Auth::Admin, Auth::AdminDb, Auth::DbToken] {
         for w in words() {
             for pos in 0..4usize {
                 for t in tokens() {
@@ -227,12 +227,21 @@ fn systematic() -> Vec<Case> {
                         parts.push(if i == pos { t.clone() } else { fill[i].to_string() });
                     }
                     out.push(Case { auth: auth.clone(), lines: vec![parts.join(" ")], repeat: 1 });
+                    // and with the token as the LAST argument (exact arity)
+                    let mut exact: Vec<String> = vec![w.clone()];
+                    for i in 0..pos {
+                        exact.push(fill[i].to_string());
+                    }
+                    exact.push(t.clone());
+                    out.push(Case { auth: auth.clone(), lines: vec![exact.join(" ")], repeat: 1 });
                 }
             }
             // and with too few arguments
             out.push(Case { auth: auth.clone(), lines: vec![w.clone()], repeat: 1 });
             out.push(Case { auth: auth.clone(), lines: vec![format!("{} ", w)], repeat: 1 });
             out.push(Case { auth: auth.clone(), lines: vec![format!("{} x", w)], repeat: 150 });
+            // the same wrapped as a replication envelope, pipelined beyond the capacity of the client channel
+            out.push(Case { auth: auth.clone(), lines: vec![format!("rp 5 {} k", w)], repeat: 150 });
         }
     }
     out
